@@ -20,14 +20,14 @@ BUILT = {
  "C05": ("exploration", "bounded-exhaustive enumeration of rationals x bases x digit modes, printed numerals read back by an independent numeral reader",
          "All p/q up to a bound plus boundary families in every base and digits mode are printed by the real formatter and read back by an independent reader that decides exact/approximate denotation.",
          "values beyond the families (other huge periods) are out of reach; exponent is read as decimal scaling by base^k", "3/C05"),
- "C07": ("exploration", "exhaustive enumeration of every prefix+name[+s] string of the bundled database (2 configurations) and all 2^10 sub-databases of a colliding pool against an independent resolver",
-         "Every one of ~1.1M prefix+unit[+s] names is looked up on two independent loads and compared with a reference resolver; canonicalisation must preserve the denotation.",
+ "C07": ("exploration", "exhaustive enumeration of every prefix+name[+s] string of the bundled database (2 configurations) all 2^10 sub-databases of a colliding pool, and load histories (base database + every subset / ordered pair of 7 redefinitions as further files) against an independent resolver",
+         "Every one of ~1.1M prefix+unit[+s] names is looked up on two independent loads and compared with a reference resolver; canonicalisation must preserve the denotation; databases built by several loads on one Context are enumerated as histories. One open known finding (stale alias after a later load redefines its target).",
          "competing prefix splits are all accepted (statement does not rank them)", "3/C07"),
- "C08": ("exploration", "exhaustive per-entry fixed-point evaluation of every stored definition in both configurations plus whole-database invariants",
-         "Each of ~2500 definitions is re-evaluated in the loaded context and compared with the stored value, in both feature configurations; load output is captured at fd level.",
+ "C08": ("exploration", "exhaustive per-entry fixed-point evaluation of every stored definition and every prefix line in both configurations plus whole-database invariants",
+         "Each of ~2500 definitions is re-evaluated in the loaded context and compared with the stored value, in both feature configurations; each of the 118 prefix lines is re-read from the bundled text and compared with the prefix table; load output is captured at fd level.",
          "Debug output shows all registry fields", "3/C08"),
  "C09": ("exploration", "exhaustive enumeration of ordered unit lists (length 2-6) x boundary rational values per dimensionality, checked against the statement's four clauses",
-         "All ordered lists with repetition over up to 6 units of every dimensionality with >=2 units, for 11-13 values each, plus every non-conformable position and 67 durations.",
+         "All ordered lists with repetition over up to 6 units of every dimensionality with >=2 units, for 11-13 values each, plus every non-conformable position and 151 durations, near-multiple values (k +- e) a for every group.",
          "negative-valued units excluded (sign clause ill-posed)", "3/C09"),
  "C10": ("exploration", "exhaustive enumeration of x values x all 26x26 scale spellings, chains over all 6^3 scale triples and refusal shapes against hard-coded textbook affine maps",
          "Every ordered pair of the 26 scale spellings for each boundary x, all scale triples as chains, and 12 refusal shapes per spelling.",
@@ -43,16 +43,16 @@ BUILT = {
          "Every numeric reply over the swept space is decomposed into numeral, factor, divfactor and printed unit names; numeral x factor x product of the names (read back the way rink reads names) must equal the quantity computed from the registry dump.",
          "temperature-scale replies are C10's; float-valued units skipped", "3/C06"),
  "C12": ("exploration", "exhaustive enumeration of all 5040 permutations of dependency-closed definition subsets, bundled-database reorders/rotations, and all file-split assignments through the real binary, comparing whole-registry dumps",
-         "All permutations of dependency-closed 7-subsets of an 18-definition pool, the bundled database reversed/sorted/dependency-reversed/rotated, and a 6-definition extension set split over two files in all assignments (real `rink --dump`) must yield byte-identical registry dumps and identical error multisets.",
+         "All permutations of dependency-closed 7-subsets of a 22-definition pool, all 5040 text orders of 7 snippets x 36 splits into files parsed as files, the bundled database reversed/sorted/dependency-reversed/rotated, and a 6-definition extension set split over two files in all assignments (real `rink --dump`) must yield byte-identical registry dumps and identical error multisets.",
          "duplicated names in the shipped file are reduced to their last occurrence first (premise of the statement)", "3/C12"),
  "C13": ("exploration", "deviation-bounded exhaustive enumeration of file mutations, definition token soups, dependency cycles/chains, malformed substances, JSON truncations/edits and date-pattern soups against the real loaders under watchdog",
-         "0 and every single deviation of the bundled files, every definitions file of <=4/5 tokens, cycles of length 1..5000 through six namespace shapes, chains to 10000, every truncation and field edit of the currency JSON: the load must terminate without panic/abort, report what the harness can prove is a problem, and leave a usable context.",
+         "0 and every single deviation of the bundled files, every definitions file of <=4/5 tokens, cycles of length 1..5000 through eleven namespace shapes, chains to 10000, every truncation and field edit of the currency JSON: the load must terminate without panic/abort, report what the harness can prove is a problem, and leave a usable context.",
          "nesting deeper than realistic files is out of scope; reporting clause judged only where provable", "3/C13"),
  "C14": ("exploration", "exhaustive enumeration of boundary instants x pattern forms x zone spellings, durations, all zone names and all +-HH:MM offsets against own proleptic-Gregorian arithmetic",
          "Every boundary instant in 10 pattern forms and 11 zone spellings, (d+t)-d and (d-t)+t for 26 whole-nanosecond durations, all ordered pairs of a core of instants, every chrono-tz zone and every +-HH:MM offset (HH,MM 00..99) as conversion target.",
          "chrono-tz zone data trusted for named-zone offsets; sub-minute LMT offsets skipped", "3/C14"),
  "C15": ("model_checking", "explicit-state exploration of all query histories up to a depth bound (and a de Bruijn sequence on one long-lived context) on the real Context against a one-register model, every transition executed on the implementation",
-         "All histories over a 16-query alphabet to depth 3 (thorough 4) with the flag on (flag off: depth 2 / 4) are replayed on freshly loaded real contexts; at every transition the reply must equal that of a pristine context (shared reference) with the model's register preset, ans must equal the register, and the database must be unchanged.",
+         "All histories over a 16-query alphabet to depth 3 (thorough 4) with the flag on (flag off: depth 2 / 4), and all histories of depth 4 (thorough 6) over 6 queries plus the settings changes flag-on / flag-off, are replayed on freshly loaded real contexts; at every transition the reply must equal that of a pristine context (shared reference) with the model's register preset, ans must equal the register, and the database must be unchanged.",
          "model register is fed from the pristine context's replies; full registry dumps compared at history ends", "3/C15"),
  "C16": ("exploration", "exhaustive enumeration of every substance x property x amounts (forward, inverse, wrong dimension, scaling) and of formulas over every element symbol against exact rational reference",
          "Every property of every substance for 5 amounts in both directions, scaling by k and 1/k, every element symbol with boundary counts, symbol pairs, compounds and near-miss strings.",
